@@ -12,15 +12,15 @@ TLC (TraceSem.tla) accepts a recorded execution iff result and observation log e
 import semlib
 
 PID = "C02"
-AGG = ["ints", "bool", "str", "char", "rec", "enum", "opt", "list", "loops", "calls", "ret", "copymut", "float", "generic", "hostopt", "shadow", "gconst", "kconst", "mods", "exprstmt", "hmeth"]
+AGG = ["ints", "bool", "str", "char", "rec", "enum", "opt", "list", "loops", "calls", "ret", "copymut", "float", "generic", "hostopt", "shadow", "gconst", "kconst", "mods", "exprstmt", "hmeth", "anonrec"]
 
 
 def run(tier):
-    fam = [("aggregates", AGG, 3, 700, 6000, 2), ("shapes", ["ints", "bool", "str", "rec", "enum", "opt", "list", "copymut", "generic", "calls", "exprstmt"], 2, 500, 4000, 1)]
+    fam = [("aggregates", AGG, 3, 700, 6000, 2), ("shapes", ["ints", "bool", "str", "rec", "enum", "opt", "list", "copymut", "generic", "calls", "exprstmt", "anonrec"], 2, 500, 4000, 1)]
     return semlib.run_sem_check(
         PID, tier, fam,
         extra_cases=[("match", semlib.match_cases()), ("eq", semlib.eq_cases()), ("aggcopy", semlib.aggcopy_cases()),
-                     ("flist", semlib.flist_cases())],
+                     ("flist", semlib.flist_cases()), ("anonflow", semlib.anonflow_cases())],
         rule=("cases = recorded native executions of seeded random programs over random record/enum declarations with "
               "copy / mutate / observe-all-leaves statements; distinct = distinct (source, inputs); non-trivial = source "
               "longer than one statement"),
